@@ -153,7 +153,7 @@ func ReplayGraph(c *Ctx, g *Graph, o ReplayOpts) (groups int) {
 			if d, ok := m.(Detailer); ok {
 				det = " [" + d.Detail() + "]"
 			}
-			c.Violation(sig, fmt.Sprintf("scenario %s: from %s after %v the implementation is in %s but the specification allows only %v%s", key, fmtState(g.States[initNode]), full, got, wants, det),
+			c.Violation(sig, fmt.Sprintf("scenario %s: from %s after %v the implementation is in %s but the specification allows only %v%s", clip(key, 300), clip(fmtState(g.States[initNode]), 400), full, got, wants, clip(det, 600)),
 				map[string]interface{}{"key": key, "init": fmtState(g.States[initNode]), "actions": full, "got": got, "want": wants})
 		}
 	}
@@ -365,4 +365,11 @@ func fmtState(s State) string {
 		parts[i] = k + "=" + s[k].String()
 	}
 	return strings.Join(parts, ",")
+}
+
+func clip(s string, n int) string {
+	if len(s) > n {
+		return s[:n] + "..."
+	}
+	return s
 }
